@@ -49,10 +49,16 @@ def main():
         return setup()
     if not args.prop:
         ap.error('property id required')
+    cov = None
+    if args.worker:
+        # the line-coverage tap starts before the code under test is imported, so that module-level lines count too
+        from . import taps
+        cov = taps.LineCoverage()
+        cov.start()
     check_import()
     prop = importlib.import_module('rtmon.props.' + args.prop.lower())
     if args.worker:
-        return core.worker_main(prop, args)
+        return core.worker_main(prop, args, cov)
     if args.replay:
         return core.main_replay(prop, args.replay)
     return core.main_check(prop, args.tier, args.seed)
